@@ -172,6 +172,15 @@ static void xv_havoc(void)
     size_t a; char c; int i, j, k; bool b; double d; XMLInt64 l;
     g_w = a; g_dp = c; g_n0 = i; g_dppos = j; g_neg = XV_BOOL(b); g_last_atof = d; g_out_kind = XV_OUT_NONE; g_out_int = l; (void)k;
 }
+/* the format table the sprintf model (xv_sprintf_f) stands for: entry k is exactly "%.<10+k>f" (fixed notation, never %g / %e: string(x) has no exponent), then the null terminator */
+void h_printf_table(void)
+{
+    int k; __CPROVER_assume(k >= 0 && k < XV_NFORMATS);
+    const char* const f = thePrintfStrings[k];
+    XV_REACH("h_printf_table");
+    __CPROVER_assert(f != 0 && f[0] == '%' && f[1] == '.' && f[2] == '0' + (10 + k) / 10 && f[3] == '0' + (10 + k) % 10 && f[4] == 'f' && f[5] == 0, "thePrintfStrings[k] is \"%.Nf\" with N = 10 + k: fixed notation with increasing precision");
+    __CPROVER_assert(XV_NFORMATS == 26 && thePrintfStrings[XV_NFORMATS] == 0, "the list runs from %.10f to %.35f and ends with a null pointer");
+}
 void h_n2s(void) { xv_havoc(); double x; NumberToDOMString_double(x, 0); }
 void h_n2c(void) { xv_havoc(); double x; NumberToCharacters_double(x, 0, 0); }
 '''
@@ -185,6 +194,7 @@ UNIT = Unit(
     functions=[N2S, N2C],
     template=TEMPLATE,
     jobs=[
+        Job('printf_table', 'h_printf_table', dfcc=False, reach=['h_printf_table'], timeout=120, min_obligations=2),
         Job('NumberToDOMString', 'h_n2s', enforce=['NumberToDOMString_double'], replace=[r for r in REPL if r != 'xv_transcode_to_array'],
             loop_contracts=True, flags=['--object-bits', '12', '--conversion-check'], timeout=900,
             reach=['entry:NumberToDOMString_double'] + ['after_loop%d:NumberToDOMString_double' % k for k in (0, 1, 2)]),
@@ -193,6 +203,7 @@ UNIT = Unit(
             reach=['entry:NumberToCharacters_double'] + ['after_loop%d:NumberToCharacters_double' % k for k in (0, 1, 2)]),
     ],
     mutants=[
+        Mutant('format_20_is_g', DH, r'"%\.20f",', '"%.20g",', expect='fixed notation'),
         Mutant('buffer_100', DH, r'char            theBuffer\[MAX_FLOAT_CHARACTERS \+ 1\];', 'char            theBuffer[MAX_PRINTF_DIGITS + 1];', expect='must fit the destination buffer'),
         Mutant('guard_2p63', DH, r'theValue < 9223372036854775808\.0 &&', 'theValue <= 9223372036854775807.0 &&', expect=None, count=2),
         Mutant('strip_inverted', DH, r'if\(isdigit\(theBuffer\[theCharsWritten\]\)\)', 'if(!isdigit(theBuffer[theCharsWritten]))', expect='string(x)', count=2),
